@@ -31,6 +31,7 @@ DECIDED = [
     "C04.6 is_occupied = is_started(worker, max(max_concurrent_tries|max_tries, 1)); is_started reads all bridged copies",
     "C04.7 re-entrancy (max_concurrent_tries store) only after waiting longer than the test duration on the same node",
     "C04.8 occupied bounce (reset, bounded sleep, continue, no traversal in the same iteration)",
+    "C04.10 premise of the exclusion argument: equivalent nodes are bridged symmetrically at every creation site (all pairs in the update tool)",
 ]
 NOT_DECIDED = ["overlap when a test overruns its timeout", "completeness of bridging (C09)"]
 MIN_INSTANCES = 25
@@ -151,6 +152,10 @@ def run(ctx: Ctx) -> None:
     ctx.call(reentrancy_rule, "7")
     ctx.call(occupied_bounce, "8")
     ctx.call(T.t_o1, "9/T.O1")
+    from . import graphrules as GR
+
+    ctx.call(GR.bridge_table, "10b")
+    ctx.call(GR.bridging_sites, "10")
 
 
 G = "cartgraph/graph.py"
